@@ -158,6 +158,22 @@ Definition nstep_r (s : nst) (x : nact) : nst * qres :=
       else (s, RErr)
   end.
 Definition nstep (s : nst) (x : nact) : nst := fst (nstep_r s x).
+
+(* the entanglement-information records of measure-directly pairs an action writes into the ReturnArray of its host (host, record):
+   the creator's record when the request succeeds (_handle_epr_response at the end of cmd_epr), the peer's when the receiver
+   polls it (cmd_epr_recv).  Records of create-and-keep pairs are not modelled *)
+Definition act_records (s : nst) (x : nact) : list (nat * mrec) :=
+  match x with
+  | ACreateM i known r adj lsock rsock seq bl br c1 c2 coins =>
+      if Nat.ltb i (length (n_hosts s)) then
+        match snd (create_m s i known r adj lsock rsock seq bl br c1 c2 coins) with Some (rc, _) => [(i, rc)] | None => [] end
+      else []
+  | ARecv i _ _ sock =>
+      if Nat.ltb i (length (n_hosts s)) then
+        match take_pend i sock (n_pend s) with Some (DM _ _ rec, _) => [(i, rec)] | _ => [] end
+      else []
+  | _ => []
+  end.
 Definition nrun (s : nst) (xs : list nact) : nst := fold_left nstep xs s.
 
 (* ---- what is excluded ------------------------------------------------------------------------------------------------------------ *)
